@@ -541,7 +541,7 @@ def shared_a10(ctx):
             for i in o.instances[:200]:
                 ob.instance("C06.4: " + i["what"], i["detail"] or "ok")
             for r in o.refutations:
-                ob.refute(r["key"], r["msg"], None)
+                ob.refute(r["key"], r["msg"], r.get("loc"))
             for u in o.unknowns:
                 ob.unknown(u)
 
